@@ -16,7 +16,6 @@ Section C17.
 Variable F : Type.
 Variables (zero one : F) (add mul sub : F -> F -> F) (opp : F -> F) (div : F -> F -> F) (inv : F -> F).
 Variable Fth : field_theory zero one add mul sub opp div inv (@eq F).
-Variable tiny : F -> bool.                 (* fabs(v) <= zero_tol *)
 Variables (eqb ltb : F -> F -> bool).
 Hypothesis eqb_spec : forall a c, eqb a c = true <-> a = c.
 
@@ -33,9 +32,9 @@ Hypothesis ltb_spec : forall a c, ltb a c = true <-> flt F le a c.
 Notation axpy := (axpy F add mul).
 Notation vsub := (vsub F sub).
 Notation inner := (inner F zero add mul).
-Notation norm2sq := (norm2sq F zero add mul tiny).
+Notation norm2sq := (norm2sq F zero add mul).
 Notation zeros k := (repeat zero k).
-Notation sops := (seq_ops F zero add mul tiny).
+Notation sops := (seq_ops F zero add mul).
 
 (* the linear system *)
 Variable n : nat.
@@ -56,9 +55,9 @@ Notation bistep := (bi_step F zero one mul opp div eqb mulA sops).
 Notation biinit := (bi_init F residA sops b).
 Notation birun := (bi_run F zero one mul opp div eqb ltb mulA residA sops b tol).
 Notation bicont x0 := (bi_cont F ltb (bi_thr F zero mul eqb residA sops b tol x0)).
-(* squared true residuals: 2-norm, and Vector::norm(2) with its zero_tol guard *)
+(* squared true residuals: <r,r> (CG) and Vector::norm(2)^2 (BiCGStab); equal by C17_norm_is_2norm *)
 Notation true_res_sq := (true_res_sq F zero add mul sub mulA b).
-Notation true_res_nsq := (true_res_nsq F zero add mul sub tiny mulA b).
+Notation true_res_nsq := (true_res_nsq F zero add mul sub mulA b).
 
 (* ---------- the loop ---------- *)
 (* a bounded while-loop returns the K-th iterate of its body, K = the first index whose state fails the loop
@@ -139,9 +138,9 @@ Theorem C17_bicgstab_halfstep_breaks seqform rstar s alpha p Ap :
   bistep seqform rstar s = None.
 Proof. intros. eapply bi_halfstep_breaks; eauto. Qed.
 
-(* Vector::norm(2) is the 2-norm when no entry falls into the zero_tol window *)
-Theorem C17_guarded_norm_is_2norm v : (forall a, In a v -> tiny a = true -> a = zero) -> norm2sq v = inner v v.
-Proof. intros. eapply norm2sq_exact; eauto. Qed.
+(* Vector::norm(2)^2 (sum of pow(val,2) over every entry) is <v,v> *)
+Theorem C17_norm_is_2norm v : norm2sq v = inner v v.
+Proof. eapply norm2sq_inner; eauto. Qed.
 
 (* ---------- PCG (par_cg.cpp), preconditioner = any map prec with prec 0 = 0 ---------- *)
 Variable prec : list F -> list F.
@@ -150,7 +149,7 @@ Hypothesis prec_len : forall r, length r = n -> length (prec r) = n.
 Notation pcstep := (pcg_step F zero one mul opp div eqb ltb mulA residA sops b tol prec ztol2).
 Notation pcinit := (pcg_init F residA sops b prec).
 Notation pcrun := (pcg_run F zero one mul opp div eqb ltb mulA residA sops b tol prec ztol2).
-Notation pcg_inv := (pcg_inv F zero add mul sub div tiny ltb n mulA b tol prec ztol2).
+Notation pcg_inv := (pcg_inv F zero add mul sub div ltb n mulA b tol prec ztol2).
 
 (* pcg_inv s: r = b - A x; the last reported value is <r, M^-1 r> (entry 0) resp. <r, M^-1 r>/<b, M^-1 b> of the
    current iterate; `break` was taken iff that value passes the test next_inner < tol' *)
@@ -171,11 +170,11 @@ Proof. intros. eapply pcg_exact_start_breaks; eauto. Qed.
 (* ---------- distributed = sequential, for every partition (list of local sizes, zeros allowed) ---------- *)
 Variable parts : list nat.
 Hypothesis Hparts : psum parts = n.
-Notation dops := (dist_ops F zero add mul tiny parts).
+Notation dops := (dist_ops F zero add mul parts).
 
 Theorem C17_dist_kernels_are_those_of_the_assembled_vector u v a : length u = n -> length v = n ->
   dinner F zero add mul parts u v = inner u v /\
-  dnorm2sq F zero add mul tiny parts v = norm2sq v /\
+  dnorm2sq F zero add mul parts v = norm2sq v /\
   daxpy F add mul parts u v a = axpy u v a /\
   dscale F mul parts u a = vscale F mul u a.
 Proof.
@@ -194,26 +193,33 @@ Theorem C17_dist_pcg_is_pcg_on_assembled_vectors max_iter x0 : length x0 = n ->
   pcg_run F zero one mul opp div eqb ltb mulA residA dops b tol prec ztol2 max_iter x0 = pcrun max_iter x0.
 Proof. intros. eapply pcg_run_dist; eauto. Qed.
 
+(* what the distributed CG pushes into res is norm_r / b_norm, b_norm = ||b||_2 of the assembled b (1.0 when b_norm < zero_tol):
+   entry k of the reported history, squared, times ||b||^2 is the model's history entry <r_k, r_k> *)
+Theorem C17_par_cg_reported_scaling (bb hist : list F) zt2 k :
+  length bb = n -> ltb (norm2sq bb) zt2 = false -> norm2sq bb <> zero -> k < length hist ->
+  mul (nth k (par_cg_reported F zero one add mul div ltb parts zt2 bb hist) zero) (norm2sq bb) = nth k hist zero.
+Proof. intros. eapply par_cg_reported_true; eauto. Qed.
+
 (* ---------- non-finite values (xval = Fin q | NaNv) ---------- *)
 Theorem C17_norm_and_inner_product_nonfinite (u v : list (xval F)) ps :
   (length u = length v -> In NaNv u \/ In NaNv v -> xinner F zero add mul u v = NaNv) /\
-  (In NaNv v -> xnorm2sq F zero add mul tiny v = NaNv) /\
+  (In NaNv v -> xnorm2sq F zero add mul v = NaNv) /\
   (length u = psum ps -> length v = psum ps -> In NaNv u \/ In NaNv v -> xdinner F zero add mul ps u v = NaNv) /\
-  (length v = psum ps -> In NaNv v -> xdnorm2sq F zero add mul tiny ps v = NaNv) /\
+  (length v = psum ps -> In NaNv v -> xdnorm2sq F zero add mul ps v = NaNv) /\
   (forall t, xgt F ltb NaNv t = false).
 Proof.
   refine (conj _ (conj _ (conj _ (conj _ _)))).
   - apply xinner_nan.
   - apply xnorm2sq_nan.
-  - apply (xdinner_nan F zero add mul div eqb ltb tiny).
+  - apply xdinner_nan.
   - apply xdnorm2sq_nan.
   - intros; reflexivity.
 Qed.
 
 Theorem C17_norm_and_inner_product_finite (u v : list F) ps :
   xinner F zero add mul (map Fin u) (map Fin v) = Fin (inner u v) /\
-  xnorm2sq F zero add mul tiny (map Fin v) = Fin (norm2sq v) /\
-  xdnorm2sq F zero add mul tiny ps (map Fin v) = Fin (dnorm2sq F zero add mul tiny ps v).
+  xnorm2sq F zero add mul (map Fin v) = Fin (norm2sq v) /\
+  xdnorm2sq F zero add mul ps (map Fin v) = Fin (dnorm2sq F zero add mul ps v).
 Proof. refine (conj _ (conj _ _)); [apply xinner_fin|apply xnorm2sq_fin|apply xdnorm2sq_fin]. Qed.
 
 (* ---------- the operator used for extraction ---------- *)
@@ -304,13 +310,14 @@ Print Assumptions C17_cg_energy_monotone.
 Print Assumptions C17_bicgstab_reports_true_residuals_and_stops_first.
 Print Assumptions C17_bicgstab_exact_start_returns_immediately.
 Print Assumptions C17_bicgstab_halfstep_breaks.
-Print Assumptions C17_guarded_norm_is_2norm.
+Print Assumptions C17_norm_is_2norm.
 Print Assumptions C17_pcg_reports_and_stops_first.
 Print Assumptions C17_pcg_exact_start_breaks.
 Print Assumptions C17_dist_kernels_are_those_of_the_assembled_vector.
 Print Assumptions C17_dist_cg_is_seq_cg.
 Print Assumptions C17_dist_bicgstab_is_seq_bicgstab.
 Print Assumptions C17_dist_pcg_is_pcg_on_assembled_vectors.
+Print Assumptions C17_par_cg_reported_scaling.
 Print Assumptions C17_norm_and_inner_product_nonfinite.
 Print Assumptions C17_norm_and_inner_product_finite.
 Print Assumptions C17_csr_operator.
